@@ -385,7 +385,7 @@ def audit_axioms(module, names):
     with open(scratch, "w") as fh:
         fh.write(f"import {module}\n")
         for n in names:
-            fh.write(f"#print axioms {n}\n")
+            fh.write(f"#print axioms {module}.{n}\n")
     rc, out = run(["lake", "env", "lean", scratch], cwd=LEAN_DIR, timeout=1800)
     res = {}
     cur = None
